@@ -591,6 +591,21 @@ func cmdTotal(args []string) int {
 			reportT("cut", special[i], i%3, err)
 		}
 	})
+	// file contents that String() never produces: raw line breaks inside strings, very long single lines
+	if st.nviol() == 0 {
+		long := "{\"k\":[" + strings.Repeat("1234567,", 12000) + "1],\"s\":\"" + strings.Repeat("x", 70000) + "\"}"
+		for _, content := range []string{"{\"k\":\"x\r\ny\"}", "{\"a\r\nb\":1}", "{\"k\":\"x\ny\",\n\"l\":[1,\r\n2]}", long, long + "\n@", "\r\n" + long[:len(long)/2],
+			"{\"k\":\"tab\there\"}", "{\"k\":1}\r\n", "\ufeff{\"k\":\"\ufeff\"}", "{\"k\":\"a\u2028b\"}\n"} {
+			if err := checkFileEq(cc, content); err != nil {
+				c := content
+				if len(c) > 200 {
+					c = c[:200] + "..."
+				}
+				report("file", c, err)
+				break
+			}
+		}
+	}
 	// missing / unreadable paths
 	if st.nviol() == 0 {
 		for _, p := range []string{filepath.Join(tmpdir, "does-not-exist.json"), tmpdir, ""} {
